@@ -120,12 +120,58 @@ def rule_replay_reference_threaded(ctx, fx, config, prop="C16"):
     ctx.floor("USE-SITE.replay-constructions", n, 6, config)
 
 
+def rule_dual_only_when_sites_differ(ctx, fx, config, prop="C16"):
+    """Every container level wraps a bubbling error with `attach_alias_locations_if_missing(err, use-site, definition-site)` of
+    *its own* node.  For a node written in place the two sites are equal and the error passes through unchanged; the dual-location
+    error is built only on the edge where they differ.  Built (or rebuilt) without that test, an error that already carries the
+    alias's two sites is overwritten by every ordinary enclosing level with the start of that container."""
+    f = fx.fn("de::attach_alias_locations_if_missing")
+    ctx.saw(f)
+    diff_edges = []
+    for sb, sym, tt, ff in bool_switches(f):
+        d = sym
+        neg = False
+        while d[0] == "un" and d[1] == "Not":
+            d, neg = d[2], not neg
+        if d[0] == "call" and last_seg(d[1]) in ("ne", "eq") and len(d[2]) == 2:
+            args = {render(a) for a in d[2]}
+            if args == {"reference_location", "defined_location"}:
+                differ = tt if (last_seg(d[1]) == "ne") != neg else ff
+                diff_edges.append((sb, differ))
+    builds = [b for b, i, adt, var, fl, ops, s_ in aggregates(f) if adt == "de_error::Error" and var == "AliasError"]
+    ctx.check(bool(diff_edges) and bool(builds) and all(any(f.edge_dominates(sb, e, b) for sb, e in diff_edges) for b in builds), "SIBLING", "%s:SIBLING:dual-location:only-when-sites-differ" % prop,
+              "a dual-location error is built only where the use-site and the definition-site differ (%d site(s))" % len(builds),
+              "attach_alias_locations_if_missing builds an AliasError on a path that did not establish use-site != definition-site: an enclosing level written in place (equal sites) overwrites the alias's two sites with the start of that container", config, ctx.where(f, builds[0] if builds else None))
+
+
+def rule_value_fallback(ctx, fx, config, prop="C16"):
+    """A type error at a node is reported at that node.  Serde's own errors (`invalid_value`, `invalid_type`, …) carry no position
+    and get the thread's fallback location; while a mapping *value* is being read that fallback is the value's use-site — a guard
+    created from it is alive across `seed.deserialize` in both branches of next_value_seed (otherwise the error lands on the key)."""
+    f = fx.fn("<<de::YamlDeserializer as serde::Deserializer>::deserialize_map::MA as serde::de::MapAccess>::next_value_seed")
+    ctx.saw(f)
+    seeds = [b for b, t in f.calls() if str(t["f"].get("trait")) == "serde::de::DeserializeSeed" and t["f"].get("name") == "deserialize"]
+    guards = []
+    for b, t in f.calls():
+        if fx.callee(t) == "de_error::MissingFieldLocationGuard::new":
+            with f.deep():
+                a = f.sym_operand(t["args"][0])
+            if "ref" in loc_prov(fx, a) or "pending_value" in render(a):
+                guards.append(b)
+    ctx.floor("DOM.value-seed-calls", len(seeds), 2, config)
+    ctx.check(bool(guards) and all(any(f.dominates(g, sb) for g in guards) for sb in seeds), "DOM", "%s:DOM:value-fallback-is-the-value" % prop,
+              "while a mapping value is read the fallback location is the value's use-site (%d guard(s) over %d seed call(s))" % (len(guards), len(seeds)),
+              "next_value_seed reads a value without pointing the fallback location at it: a location-less Serde error for the value (`n: 0` into NonZeroU32) is reported at the key", config, ctx.where(f))
+
+
 def run(ctx):
     for config in ctx.configs:
         fx = ctx.facts(config)
         rule_use_site_sources(ctx, fx, config)
         rule_locate_once(ctx, fx, config)
         rule_replay_reference_threaded(ctx, fx, config)
+        rule_dual_only_when_sites_differ(ctx, fx, config)
+        rule_value_fallback(ctx, fx, config)
         a = fx.fn("location::location_from_span")
         b_ = fx.fn("de_error::Error::from_scan_error")
         ra = check_ctor(ctx, fx, config, a, "span.start")
